@@ -13,6 +13,7 @@
 #include "C02_common.hpp"
 #include <fcppt/parse/char.hpp>
 #include <fcppt/parse/char_set.hpp>
+#include <fcppt/parse/digits.hpp>
 #include <fcppt/parse/int.hpp>
 #include <fcppt/parse/list.hpp>
 #include <fcppt/parse/literal.hpp>
@@ -212,6 +213,45 @@ VERIF_HARNESS(h_n05)
   check(parser, p::skipper::epsilon{}, g, 0, -1, 5, [](input const &in) { verif_assume(in.b[0] == '6' && in.b[1] == '5' && in.b[2] == '5'); });
 }
 //@harness h_n05 tier=thorough loop=20 wall=900
+
+// n06 / n07: the overflow boundary in the quick tier: a concrete prefix with as many digits as the maximum minus one and
+// ONE symbolic last character: "6553x" for unsigned short (65530..65535 fit, 65536..65539 do not), "429496729x" for
+// unsigned (4294967290..4294967295 fit, ..296..299 do not).  In `uint<T> | +digits` a rejected number takes the second
+// branch (the digit string), an accepted one the first; a non-digit x leaves "6553" / "429496729" accepted.
+namespace
+{
+// a CONCRETE prefix followed by one fully symbolic character
+input prefix_plus_one(char const *const prefix)
+{
+  input in;
+  unsigned n = 0;
+  for (; prefix[n] != 0; ++n)
+    in.b[n] = prefix[n];
+  in.b[n++] = static_cast<char>(verif_u8("last"));
+  in.n = n;
+  for (unsigned i = n; i <= max_len; ++i)
+    in.b[i] = 0;
+  for (unsigned i = 0; i <= max_len; ++i)
+    in.code[i] = static_cast<long>(in.b[i]);
+  return in;
+}
+}
+VERIF_HARNESS(h_n06)
+{
+  static constexpr node g[] = {ALT(1, 2, T_UNSIGNED + 100, T_STRING), UINT(16), PLUS(3), SET("0123456789")};
+  auto const parser{p::uint<unsigned short>{} | +p::digits<char>()};
+  static_assert(std::is_same_v<p::result_of<decltype(parser)>, fcppt::variant::object<unsigned short, std::string>>);
+  check_input<char>(parser, p::skipper::epsilon{}, g, 0, -1, prefix_plus_one("6553"));
+}
+VERIF_HARNESS(h_n07)
+{
+  static constexpr node g[] = {ALT(1, 2, T_UNSIGNED, T_STRING), UINT(32), PLUS(3), SET("0123456789")};
+  auto const parser{p::uint<unsigned>{} | +p::digits<char>()};
+  static_assert(std::is_same_v<p::result_of<decltype(parser)>, fcppt::variant::object<unsigned, std::string>>);
+  check_input<char>(parser, p::skipper::epsilon{}, g, 0, -1, prefix_plus_one("429496729"));
+}
+//@harness h_n06 tier=quick loop=30
+//@harness h_n07 tier=quick loop=30
 
 // ---------------------------------------------------------------------------------------------------------------------
 // Number parsers UNDER AN ACTIVE SKIPPER.  int_ / uint are lexemes ("A signed integer string optionally starts with the
